@@ -8,6 +8,7 @@ of this property.  Chunk boundaries are C05's `chunking_independent`; zip and fi
 behaviour is outside the model (exercised by the metamorphic runs of harness/checks/c06.py).
 -/
 import NumbersModel.Lemmas.Layout
+import NumbersModel.Lemmas.DocTreeOps
 namespace NumbersModel.Props.C06
 open NumbersModel NumbersModel.Layout
 
@@ -206,5 +207,33 @@ example : dictGet (fillStore [("b.iwa", [(7, "y")]), ("a.iwa", [(7, "x")])]).obj
 /-- non-vacuity, and the iteration order does differ -/
 example : dictKeys (fillStore [("a.iwa", [(7, "x"), (9, "z")]), ("b.iwa", [(8, "y")])]).objects = [7, 9, 8] := by decide
 example : dictKeys (fillStore [("b.iwa", [(8, "y")]), ("a.iwa", [(7, "x"), (9, "z")])]).objects = [8, 7, 9] := by decide
+
+end NumbersModel.Props.C06
+
+
+/-! ## Table order inside a sheet does not follow the file (`Model/DocTree.lean`, after
+fixes/C06-table-order-from-drawable-list.patch) -/
+namespace NumbersModel.Props.C06
+open NumbersModel NumbersModel.Layout NumbersModel.DocTree
+
+/-- **table order within a sheet**: two stores holding the same objects in different iteration orders (= different member
+    or archive orders in the file) give the same `table_ids(sheet)`: which objects are tables of the sheet is decided by
+    their `parent`, the order by the sheet's drawable list. -/
+theorem table_order_within_a_sheet (os os' : Objects) (hp : os'.Perm os) (hn : (dictKeys os).Nodup) (hl : Listed os) (s : Nat) :
+    tableIds os' (some s) = tableIds os (some s) := tableIds_perm os os' hp hn hl s
+
+/-- the whole reading of names: sheets in order, per sheet the tables in order -/
+theorem names_independent_of_store_order (os os' : Objects) (hp : os'.Perm os) (hn : (dictKeys os).Nodup) (hl : Listed os) :
+    names os' = names os := names_perm os os' hp hn hl
+
+/-- the pinned code read the tables in store order: the same three archives in two file orders -/
+example : tableIdsPinned [(5, .sheet [] [21, 11]), (11, .tableInfo 5 10 0 false 0 0), (21, .tableInfo 5 20 0 false 0 0)] (some 5)
+    = .ok [10, 20] := by decide
+example : tableIdsPinned [(5, .sheet [] [21, 11]), (21, .tableInfo 5 20 0 false 0 0), (11, .tableInfo 5 10 0 false 0 0)] (some 5)
+    = .ok [20, 10] := by decide
+example : tableIds [(5, .sheet [] [21, 11]), (11, .tableInfo 5 10 0 false 0 0), (21, .tableInfo 5 20 0 false 0 0)] (some 5)
+    = .ok [20, 10] := by decide
+example : tableIds [(5, .sheet [] [21, 11]), (21, .tableInfo 5 20 0 false 0 0), (11, .tableInfo 5 10 0 false 0 0)] (some 5)
+    = .ok [20, 10] := by decide
 
 end NumbersModel.Props.C06
